@@ -503,7 +503,7 @@ impl Scenario for GroupScen {
             let members = self.list_all(Some(30));
             // adds
             let mut add = vec![];
-            let na = if self.wide { *rng.pick(&[0usize, 1, 2, 4, 8, 12, 20, 30]) } else { *rng.pick(&[0usize, 1, 1, 2, 2, 3, 4]) };
+            let na = if self.wide { *rng.pick(&[0usize, 1, 2, 4, 8, 12, 20, 30, 31, 33, 36]) } else { *rng.pick(&[0usize, 1, 1, 2, 2, 3, 4]) };
             let start = rng.below(self.pool.len() as u64) as usize;
             for i in 0..na {
                 let a = if rng.chance(1, if self.wide { 150 } else { 16 }) {
